@@ -290,6 +290,58 @@ func checkC12(p *Program, r *Report) {
 	}
 	r.Floor("C12.facts", 7)
 
+	// ---- C12.height: the traversal starts at the height of the whole tree: the loop that computes it is left only when
+	// the level is one node wide (a cap on the height makes the root of a larger tree an inner node of the real one)
+	{
+		var hphi *ssa.Phi
+		if len(tcall.Call.Args) >= 2 {
+			hphi, _ = tcall.Call.Args[1].(*ssa.Phi)
+		}
+		if hphi == nil || !isLoopHeader(hphi.Block()) {
+			r.Unresolved("C12.height", "loop computing the tree height handed to the traversal")
+		} else {
+			h := hphi.Block()
+			var tails []*ssa.BasicBlock
+			for _, pr := range h.Preds {
+				if h.Dominates(pr) {
+					tails = append(tails, pr)
+				}
+			}
+			body := loopBody(h, tails)
+			var bad []string
+			nExit := 0
+			for b := range body {
+				iff, ok := lastInstr(b).(*ssa.If)
+				if !ok {
+					continue
+				}
+				if body[b.Succs[0]] && body[b.Succs[1]] {
+					continue
+				}
+				nExit++
+				for _, leaf := range condLeaves(iff.Cond) {
+					if !strings.HasPrefix(leaf, "call ") || !strings.Contains(leaf, "merkleblock") {
+						bad = append(bad, leaf)
+					}
+				}
+				if bo, ok := iff.Cond.(*ssa.BinOp); !ok || !(bo.Op == token.GTR || bo.Op == token.LSS || bo.Op == token.LEQ || bo.Op == token.GEQ || bo.Op == token.NEQ || bo.Op == token.EQL) {
+					bad = append(bad, "exit test is not a comparison of the level width")
+				} else if k, isK := constInt(bo.Y); !isK || k != 1 {
+					if k2, isK2 := constInt(bo.X); !isK2 || k2 != 1 {
+						bad = append(bad, "the level width is not compared with 1")
+					}
+				}
+			}
+			sort.Strings(bad)
+			bad = dedup(bad)
+			how := "the only exit test compares the width of the level with 1"
+			if len(bad) > 0 {
+				how = "the loop can also be left because of: " + strings.Join(bad, ", ")
+			}
+			r.Add("C12.height", FnName(ext), "the height loop is left only when the level is one node wide", hphi.Pos(), len(bad) == 0 && nExit == 1, how)
+		}
+		r.Floor("C12.height", 1)
+	}
 	// ---- C12.matches: what is recorded as a match depends on the node's height and flag bit only
 	{
 		roles := map[string]bool{bitsF.Name(): true, hashesF.Name(): true, bitCur.Name(): true, hashCur.Name(): true, numTx.Name(): true}
